@@ -266,6 +266,20 @@ struct WsInfo {
     known_stale: bool,
 }
 
+#[derive(Clone)]
+enum Pre {
+    Nothing,
+    Create(&'static str),
+    Modify(&'static str),
+}
+#[derive(Clone)]
+struct Item {
+    wi: usize,
+    pre: Pre,
+    args: Vec<String>,
+    kind: Kind,
+}
+
 const REVS: &[&str] = &["@", "@-", "@--", "root()", "default@", "visible_heads()", "latest(all())", "heads(all() ~ @)", "@+"];
 
 fn pick_rev(rng: &mut Rng, have_w2: bool) -> String {
@@ -329,12 +343,48 @@ fn session(index: usize, mut rng: Rng, scratch: &Path, tier: &str) -> SessionRes
     let mut exempt = false;
     // scripted pool: forget / restore away the second workspace and keep using its directory
     let script_absent = rng.chance(1, 8);
+    let script_at = rng.range(0, 2) as usize;
+    let mut script: std::collections::VecDeque<Item> = std::collections::VecDeque::new();
     let mut final_heads = heads.clone();
     for step in 0..nsteps {
         let have_w2 = wss.len() > 1;
-        let wi = if have_w2 && rng.chance(2, 5) { 1 } else { 0 };
+        if script_absent && step == script_at {
+            let sv = |v: &[&str]| -> Vec<String> { v.iter().map(|x| x.to_string()).collect() };
+            if !have_w2 {
+                script.push_back(Item { wi: 0, pre: Pre::Nothing, args: sv(&["workspace", "add", "../w2"]), kind: Kind::WorkspaceAdd });
+            }
+            script.push_back(Item { wi: 1, pre: Pre::Create("g"), args: sv(&["status"]), kind: Kind::Normal });
+            let remove = if rng.chance(1, 2) { sv(&["workspace", "forget", "w2"]) } else { sv(&["op", "restore", "OP_BEFORE_ADD"]) };
+            script.push_back(Item { wi: 0, pre: Pre::Nothing, args: remove, kind: Kind::Normal });
+            script.push_back(Item { wi: 1, pre: Pre::Modify("g"), args: sv(&["new", "root()"]), kind: Kind::Normal });
+        }
+        let item = script.pop_front();
+        let wi = match &item {
+            Some(it) => it.wi,
+            None => if have_w2 && rng.chance(2, 5) { 1 } else { 0 },
+        };
+        if let Some(it) = &item {
+            let dir = wss[wi.min(wss.len() - 1)].dir.clone();
+            match it.pre {
+                Pre::Nothing => {}
+                Pre::Create(n) => std::fs::write(dir.join(n), "one\n").unwrap(),
+                Pre::Modify(n) => std::fs::write(dir.join(n), "two, modified and not snapshotted\n").unwrap(),
+            }
+            if let Some(post) = observe_ws(&mut w, &wss) {
+                if post != cur_ws {
+                    events.push(format!(
+                        "(mk_event {}%N KEdit 0%N [] {} {})",
+                        wss[wi.min(wss.len() - 1)].num,
+                        nat_list(&head_nums(&w, &heads)),
+                        wsl_term(&post)
+                    ));
+                    cur_ws = post;
+                }
+            }
+        }
+        let wi = wi.min(wss.len() - 1);
         // ---- file edits in the chosen workspace
-        if rng.chance(3, 5) {
+        if item.is_none() && rng.chance(3, 5) {
             let dir = wss[wi].dir.clone();
             let stale = wss[wi].known_stale
                 || cur_ws[wi].1.op != *head_nums(&w, &heads).first().unwrap_or(&0) && {
@@ -443,16 +493,19 @@ fn session(index: usize, mut rng: Rng, scratch: &Path, tier: &str) -> SessionRes
         let mut args: Vec<String> = vec![];
         let s = |x: &str| x.to_string();
         let mut forget = false;
-        if script_absent && have_w2 && step + 3 >= nsteps && wi == 1 && !exempt {
-            // the second workspace is gone from the view; keep working in its directory
-            args = vec![s("new"), s("root()")];
-            if rng.chance(1, 2) {
-                args.push(s("-m"));
-                args.push(msg.clone());
+        if let Some(it) = &item {
+            kind = it.kind.clone();
+            args = it.args.clone();
+            for a in args.iter_mut() {
+                if a == "OP_BEFORE_ADD" {
+                    let k = w.ops.iter().position(|o| o.wcs.iter().any(|(n, _)| *n == 1)).unwrap_or(1);
+                    *a = w.op_hex[k.saturating_sub(1)].clone();
+                    forget = true;
+                }
             }
-        } else if script_absent && have_w2 && step + 4 == nsteps {
-            // run from the default workspace
-            forget = true;
+            if args.iter().any(|a| a == "forget") {
+                forget = true;
+            }
         } else if wss[wi].known_stale && rng.chance(7, 10) {
             kind = Kind::UpdateStale;
             args = vec![s("workspace"), s("update-stale")];
@@ -508,16 +561,6 @@ fn session(index: usize, mut rng: Rng, scratch: &Path, tier: &str) -> SessionRes
                 }
                 _ => args = vec![s("new"), s("-m"), msg.clone()],
             }
-        }
-        let wi = if forget { 0 } else { wi };
-        if forget {
-            args = if rng.chance(1, 2) {
-                vec![s("workspace"), s("forget"), s("w2")]
-            } else {
-                // restore the view of the operation just before the workspace was added
-                let k = w.ops.iter().position(|o| o.wcs.iter().any(|(n, _)| *n == 1)).unwrap_or(1);
-                vec![s("op"), s("restore"), w.op_hex[k.saturating_sub(1)].clone()]
-            };
         }
         let out = sess.jj(&wss[wi].dir.clone(), &args);
         if out.timed_out {
